@@ -23,7 +23,7 @@ SPEC = {
     "suites": [
         Suite(name="fileconc", harness="vh_fileconc", runner="fileconc",
               model_deps=["theories/Model/FileConc.vo"],
-              quick_n=1500, thorough_n=12000, rewrite=rewrite_counter_imports, tags="verif,verifconc",
+              quick_n=2400, thorough_n=12000, rewrite=rewrite_counter_imports, tags="verif,verifconc",
               rule="each case is one scenario: 2-4 'processes' = independent handles (the real openMapped) on ONE "
                    "counter file in one address space, each running a list of the real mappedFile.newCounter(name) and "
                    "Counter.add calls (import-rewritten copy: sync/atomic -> yielding vatomic) under the deterministic "
